@@ -34,8 +34,8 @@ fn settings(g: &mut Sm, focus: &str) -> String {
         _ => None,
     };
     let max_step = match focus {
-        "C19" => *g.pick(&[0.01, 0.1, 0.3, 1.]),
-        _ => *g.pick(&[0.001, 0.01, 0.1, 1., 10.]),
+        "C19" => *g.pick(&[0.01, 0.1, 0.3, 1., 1e-5, 1e-7, 0.001, 3e-4]),
+        _ => *g.pick(&[0.001, 0.01, 0.1, 1., 10., 1e-6]),
     };
     let conv: Option<f64> = match focus {
         "C20" => match g.below(3) {
